@@ -502,6 +502,22 @@ def expected_errors(q):
     return c14.ref_ee(q)
 
 
+class Ambiguous(Exception):
+    """A floating-point quantity lies within rounding distance of its threshold: the documented
+    criterion does not decide the case, so no verdict is given for it."""
+
+
+def exceeds(value, threshold, exact=False):
+    if not exact and abs(value - threshold) <= 1e-9 * (1 + abs(threshold)):
+        raise Ambiguous()
+    return value > threshold
+
+
+def exact_q(q):
+    """Quality strings whose expected errors are exact in binary (every character is '!' = 1.0)."""
+    return q is not None and set(q) <= {"!"}
+
+
 FDEFAULTS = dict(
     m=None, M=None, max_n=None, max_ee=None, max_aer=None, casava=False,
     discard_trimmed=False, discard_untrimmed=False, untrimmed_output=False, pair_filter=None,
@@ -539,9 +555,9 @@ def fate_single(f, rec, info, has_qual):
         return "too_long"
     if f["max_n"] is not None and n_fraction_exceeds(s, f["max_n"]):
         return "too_many_n"
-    if f["max_ee"] is not None and has_qual and expected_errors(q) > f["max_ee"]:
+    if f["max_ee"] is not None and has_qual and exceeds(expected_errors(q), f["max_ee"], exact_q(q)):
         return "too_many_expected_errors"
-    if f["max_aer"] is not None and has_qual and len(s) > 0 and expected_errors(q) / len(s) > f["max_aer"]:
+    if f["max_aer"] is not None and has_qual and len(s) > 0 and exceeds(expected_errors(q) / len(s), f["max_aer"], exact_q(q)):
         return "too_high_average_error_rate"
     if f["casava"] and casava_filtered(name):
         return "casava_filtered"
@@ -580,11 +596,11 @@ def fate_pair(f, r1, i1, r2, i2, has_qual, have_ad1, have_ad2):
                                           n_fraction_exceeds(r2[1], f["max_n"])):
         return "too_many_n"
     if f["max_ee"] is not None and has_qual and combine(
-            mode, expected_errors(r1[2]) > f["max_ee"], expected_errors(r2[2]) > f["max_ee"]):
+            mode, exceeds(expected_errors(r1[2]), f["max_ee"], exact_q(r1[2])), exceeds(expected_errors(r2[2]), f["max_ee"], exact_q(r2[2]))):
         return "too_many_expected_errors"
     if f["max_aer"] is not None and has_qual:
         def aer(r):
-            return len(r[1]) > 0 and expected_errors(r[2]) / len(r[1]) > f["max_aer"]
+            return len(r[1]) > 0 and exceeds(expected_errors(r[2]) / len(r[1]), f["max_aer"], exact_q(r[2]))
         if combine(mode, aer(r1), aer(r2)):
             return "too_high_average_error_rate"
     if f["casava"] and combine(mode, casava_filtered(r1[0]), casava_filtered(r2[0])):
@@ -610,3 +626,34 @@ def fate_pair(f, r1, i1, r2, i2, has_qual, have_ad1, have_ad2):
     if f["untrimmed_output"] and combine(umode, not t1, not t2):
         return "untrimmed_output"
     return "output"
+
+
+def criteria_read(f, rec, info, has_qual, bounds=(None, None)):
+    """All filter criteria that apply to one fully modified read (not only the first); plus threshold hits."""
+    name, s, q = rec
+    hit, edge = [], False
+    mb, Mb = bounds
+    if mb is not None:
+        if len(s) < mb:
+            hit.append("too_short")
+        edge = edge or len(s) in (mb, mb - 1)
+    if Mb is not None:
+        if len(s) > Mb:
+            hit.append("too_long")
+        edge = edge or len(s) in (Mb, Mb + 1)
+    if f["max_n"] is not None:
+        if n_fraction_exceeds(s, f["max_n"]):
+            hit.append("too_many_n")
+        nc = s.lower().count("n")
+        edge = edge or nc == f["max_n"] or (len(s) > 0 and nc / len(s) == f["max_n"])
+    if f["max_ee"] is not None and has_qual and expected_errors(q) > f["max_ee"]:
+        hit.append("too_many_expected_errors")
+    if f["max_aer"] is not None and has_qual and len(s) > 0 and expected_errors(q) / len(s) > f["max_aer"]:
+        hit.append("too_high_average_error_rate")
+    if f["casava"] and casava_filtered(name):
+        hit.append("casava_filtered")
+    if bool(info.matches) and f["discard_trimmed"]:
+        hit.append("discard_trimmed")
+    if not info.matches and (f["discard_untrimmed"] or f["untrimmed_output"]):
+        hit.append("untrimmed")
+    return hit, edge
